@@ -143,37 +143,30 @@ theorem C16_unclaimed_is_default (cs : List VCmp) (x y : Val) (h : ∀ c ∈ cs,
     simp [h c hc]
   simp [valueAnd, valueAnd_go_eq, hc]
 
-/-! ### DurationValueWithinP — recorded finding
+/-! ### DurationValueWithinP (repaired in /repo: it computed `|x / y| < p`, neither reflexive nor symmetric) -/
 
-Full-strength statement (FALSE on the current code): `DurationValueWithinP p` is reflexive and symmetric
-and accepts exactly the pairs within p of each other.  The code computes `|x / y| < p`. -/
+/-- Full strength, over exact arithmetic: for every finite p and all durations x, y (int64 nanoseconds, any
+signs, zero included) `DurationValueWithinP(p)` accepts exactly the pairs "within p percent of each other" —
+`100·|x − y| ≤ p·min(|x|, |y|)` —; it is symmetric for EVERY p (NaN and ±Inf included) and, for `p ≥ 0`,
+reflexive. -/
+theorem C16_durationP (p : Rat) (z : Bool) (xd yd : Int) :
+    (durWithinPD (.fin p z) xd yd = true ↔ ((xd : Rat) - (yd : Rat)).abs * 100 ≤ p * minAbs xd yd) ∧
+    (∀ q : F, durWithinPD q xd yd = durWithinPD q yd xd) ∧
+    (0 ≤ p → durWithinPD (.fin p z) xd xd = true) :=
+  ⟨durWithinPD_iff p z xd yd, fun q => durWithinPD_symm q xd yd, fun hp => durWithinPD_refl p z hp xd⟩
 
-/-- The code's predicate is not reflexive (p = 1/8, x = 4ns) and not symmetric (p = 1/2, 1ns vs 4ns). -/
-theorem C16_durationP_fails :
-    durWithinPD (.fin (1/8) false) 4 4 = false ∧
-    durWithinPD (.fin (1/2) false) 1 4 = true ∧ durWithinPD (.fin (1/2) false) 4 1 = false := by
-  refine ⟨?_, ?_, ?_⟩ <;> simp [durWithinPD, F.div, F.ofRat, F.lt, F.neg] <;> grind
+/-- The comparer itself on two valid Duration messages is that arithmetic on `AsDuration()` of each. -/
+theorem C16_durationP_comparer (p : F) (fx fy : Fields) (ux uy : Unk) :
+    durationValueWithinP p (.msg durName true fx ux) (.msg durName true fy uy) =
+      (durWithinPD p (toDurationNs fx) (toDurationNs fy), true) := by
+  simp [durationValueWithinP, cmpDuration]
 
-/-- What the code does compute, for a non-zero divisor: `|x / y| < p`; so it is reflexive on non-zero
-durations exactly when `p > 1`. -/
-theorem C16_durationP_partial (p : Rat) (z : Bool) (xd yd : Int) (hy : yd ≠ 0) :
-    (durWithinPD (.fin p z) xd yd = true ↔ ((xd : Rat) / (yd : Rat)).abs < p) ∧
-    (durWithinPD (.fin p z) yd yd = true ↔ 1 < p) := by
-  have hy' : (yd : Rat) ≠ 0 := by
-    intro h; exact hy (by exact_mod_cast h)
-  have key : ∀ x : Int, durWithinPD (.fin p z) x yd = true ↔ ((x : Rat) / (yd : Rat)).abs < p := by
-    intro x
-    simp only [durWithinPD, F.ofRat, F.div, hy', if_false, F.lt]
-    by_cases hneg : (x : Rat) / (yd : Rat) < 0
-    · simp only [hneg, decide_true, if_true, F.neg, F.lt, decide_eq_true_eq]
-      rw [Rat.abs_of_nonpos (by grind)]
-    · simp only [hneg, decide_false, Bool.false_eq_true, if_false, F.lt, decide_eq_true_eq]
-      rw [Rat.abs_of_nonneg (by grind)]
-  refine ⟨key xd, ?_⟩
-  have h1 : (yd : Rat) / (yd : Rat) = 1 := by grind
-  rw [key yd, h1, Rat.abs_of_nonneg (by decide)]
-
-example : (3 : Int) ≠ 0 := by decide
+/-- Non-vacuity: 4ns and 5ns are within 25 percent of each other, in both orders, and not within 12.5;
+the witness of the old defect (4ns vs 4ns, p = 1/8) is now accepted. -/
+example : durWithinPD (.fin 25 false) 4 5 = true ∧ durWithinPD (.fin 25 false) 5 4 = true ∧
+    durWithinPD (.fin (25/2) false) 4 5 = false ∧ durWithinPD (.fin (1/8) false) 4 4 = true := by
+  refine ⟨?_, ?_, ?_, ?_⟩ <;>
+    simp [durWithinPD, F.sub, F.abs, F.ofRat, F.mul, F.le, F.min, F.isNaN, Rat.abs] <;> grind
 
 /-! ## And / Or -/
 
